@@ -44,7 +44,17 @@ func boundsFor(thorough bool) bitBounds {
 	if thorough {
 		return bitBounds{hash: rangeInts(256), sig: rangeInts(512), key: rangeInts(256)}
 	}
-	return bitBounds{hash: []int{0, 7, 8, 129, 255}, sig: []int{0, 255, 256, 503, 504, 511}, key: []int{0, 7, 255}}
+	b := bitBounds{hash: []int{7, 129, 255}, sig: []int{255, 503, 504, 511}, key: []int{7, 255}}
+	for i := 0; i < 256; i += 8 {
+		b.hash = append(b.hash, i)
+	}
+	for i := 0; i < 512; i += 16 {
+		b.sig = append(b.sig, i)
+	}
+	for i := 0; i < 256; i += 16 {
+		b.key = append(b.key, i)
+	}
+	return b
 }
 
 func flipBit(b []byte, i int) { b[i/8] ^= 1 << (uint(i) % 8) }
@@ -259,7 +269,10 @@ func alterations(o *nom.AccountBlock, bb bitBounds, short bool) []alteration {
 		}
 		for _, i := range kb {
 			i := i
-			out = append(out, alteration{"PublicKey", fmt.Sprintf("^bit%d", i), func(b *nom.AccountBlock) { b.PublicKey = append(ed25519.PublicKey{}, b.PublicKey...); flipBit(b.PublicKey, i) }})
+			out = append(out, alteration{"PublicKey", fmt.Sprintf("^bit%d", i), func(b *nom.AccountBlock) {
+				b.PublicKey = append(ed25519.PublicKey{}, b.PublicKey...)
+				flipBit(b.PublicKey, i)
+			}})
 		}
 		out = append(out, alteration{"PublicKey", "=empty", func(b *nom.AccountBlock) { b.PublicKey = nil }})
 		out = append(out, alteration{"PublicKey", "-lastbyte", func(b *nom.AccountBlock) { b.PublicKey = append(ed25519.PublicKey{}, b.PublicKey[:31]...) }})
